@@ -1149,6 +1149,10 @@ def simplify_unit(old_unit_str, msginfo=''):
     if new_str == '1':
         # Special Case. Unity always becomes None.
         new_str = None
+    elif _find_unit(new_str) is None:
+        # All unit names cancelled and only a number is left (e.g., 'km*1000/km'), which is not
+        # a valid unit string, so keep the original.
+        return old_unit_str
 
     # Restore units 'as' (attoseconds).
     if new_str:
